@@ -199,6 +199,8 @@ def work(shard, res, tier, seed):
     inj = Injector(budget=BUDGET)
     inj.id_key = shard.get("id_col") or "id"
     inj.install()
+    if not inj.lines_ok:
+        res.count("line_level_sites_not_found")
     try:
         inj.set_plan({})
         base, _, err = pipeline.run(b, batch)
@@ -292,6 +294,12 @@ def build_plans(rng, jobs, frag_ids, shard):
 
 
 def conclude_args(res, tier, seed):
+    if res.counters.get("line_level_sites_not_found"):
+        # the two record writes of the search thread were not found by the AST search (another implementation of
+        # single_mcs): the line-level delays cannot be placed; every other fault site still decides
+        return {"need": {"plans_run": 150, "affected_rows_judged": 150, "unaffected_rows_compared": 500,
+                         "timeouts_observed": 30}, "min_cases": 100,
+                "extra": {"line_level_delays": "sites not found in this implementation; not placed"}}
     return {"need": {"plans_run": 150, "affected_rows_judged": 150, "unaffected_rows_compared": 500,
                      "timeouts_observed": 30, "zombie_line_delays_observed": 10, "clean_reruns_after_hangs": 2,
                      "batches_with_non_default_id_col": 1, "real_budget_plans": 2},
